@@ -684,8 +684,13 @@ class _NumericOperationsImpl(OperationsBlock):
 
     @validate_core
     def mean(self, x, *, axis=None, keepdims: bool = False):
+        if isinstance(x.dtype, dtypes.NullableCore):
+            # nulls are absent: they count neither towards the sum nor towards the number of elements
+            ones = ndx.where(x.null, 0, 1).astype(x.dtype.values)
+        else:
+            ones = ndx.full_like(x, 1, dtype=x.dtype)
         return ndx.sum(x, axis=axis, keepdims=keepdims) / ndx.sum(
-            ndx.full_like(x, 1, dtype=x.dtype), axis=axis, keepdims=keepdims
+            ones, axis=axis, keepdims=keepdims
         )
 
     @validate_core
